@@ -1,15 +1,21 @@
 /-
   Hg.Model.History — operation histories over a pool of aggregators derived from one empty tree
   (C05: the bookkeeping invariants hold in every reachable state, not just after fills).
-  The pool starts as `[z]`; `fill` and `+=` update a slot in place, `+`, `*`, `zero()`, `copy()` append
-  their result.  Operations on slots that do not exist are no-ops.
+  The pool starts as `[z]`; `fill`, `fill.numpy` and `+=` update a slot in place, `+`, `*`, `zero()`, `copy()`
+  append their result.  Operations on slots that do not exist are no-ops; a `fill.numpy` that raises
+  (`fillNp = none`) leaves the pool as it is (such a step is not admissible: `okStep`).
 -/
 import Hg.Model.Spec
+import Hg.Model.WF
+import Hg.Model.Live
+import Hg.Model.Np
+import Hg.Model.NpHyp
 
 namespace Hg
 
 inductive HOp where
   | fill (i : Nat) (d : Datum) (w : Val)
+  | fillnp (i : Nat) (rows : List Datum) (ws : List Val)
   | add (i j : Nat)
   | iadd (i j : Nat)
   | mul (i : Nat) (f : Val)
@@ -21,6 +27,10 @@ def stepH (pool : List Agg) : HOp → List Agg
   | .fill i d w =>
     match pool[i]? with
     | some a => pool.set i (fill a d w).1
+    | none => pool
+  | .fillnp i rows ws =>
+    match pool[i]? with
+    | some a => (match fillNp a rows ws with | some a' => pool.set i a' | none => pool)
     | none => pool
   | .add i j =>
     match pool[i]?, pool[j]? with
@@ -46,11 +56,18 @@ def stepH (pool : List Agg) : HOp → List Agg
 def runH (z : Agg) (ops : List HOp) : List Agg := ops.foldl stepH [z]
 
 /-- a step the properties quantify over: a fill does not raise and has a finite (or gated) weight — evaluated on the
-state it is applied to —, a scaling factor is finite or does not pass the gate -/
+state it is applied to —, a vectorised fill satisfies the executable hypotheses of C03 `fillNp_eq_rows` on the state
+it is applied to (one weight per row, no negative weight, the row-wise run is good, no NaN reaches a Sum, every
+quantity evaluates on every record of the batch), a scaling factor is finite or does not pass the gate -/
 def okStep (pool : List Agg) : HOp → Bool
   | .fill i d w =>
     match pool[i]? with
     | some a => w.okWeight && (fill a d w).2.isOk
+    | none => true
+  | .fillnp i rows ws =>
+    match pool[i]? with
+    | some a => decide (rows.length = ws.length) && nonNegW ws && goodRun a (rows.zip ws) && noNanForSums a rows &&
+        qtysOk a rows
     | none => true
   | .mul _ f => !f.pos || f.isFin
   | _ => true
